@@ -196,6 +196,7 @@ func runC13(c *Ctx) {
 		c.Floor("C13.session/returning-paths", n, 2)
 		c.Floor("C13.session/paths-with-updates", nUpd, 1)
 	}
+	c.Rule("C13.callback-name", "every string handed to a Manager callback (connect, reset, sync, update, connectError, monitorError) is the managed target's own name: the name field of the *target the monitor chain works for, or a string parameter that every caller in package manager fills with it - not a value read out of a received message (a device that labels a notification with another target's name would make an update appear outside that target's session, or after its Remove)")
 	// ---- callback owner
 	{
 		S := syncReach(rm)
@@ -217,6 +218,15 @@ func runC13(c *Ctx) {
 					how = "hands to " + fnName(u.via)
 				}
 				c.Check(S[f] && !isGo, "C13.callback-owner", fnName(f), how+" m."+u.name, P.Pos(u.ci.Pos()), fmt.Sprintf("synchronously reachable from retryMonitor=%v, via go=%v", S[f], isGo))
+				// whose session it is: the name handed to the callback is the managed target's own name (the key it was
+				// added under), never a name taken out of a message
+				for _, a := range u.ci.Common().Args {
+					if bt, ok := a.Type().Underlying().(*types.Basic); !ok || bt.Info()&types.IsString == 0 {
+						continue
+					}
+					ok, why := ownName(P, f, a, 0)
+					c.Check(ok, "C13.callback-name", fnName(f), "m."+u.name+" is told the managed target's own name", P.Pos(u.ci.Pos()), why)
+				}
 			}
 		}
 		c.Floor("C13.callback-owner/call-sites", sites, 6)
@@ -820,4 +830,84 @@ func backoffDelayOK(v ssa.Value, ctxParam ssa.Value, d int) (bool, string) {
 		return false, "delay from " + Expr(x)
 	}
 	return false, "delay is " + Expr(v) + ", not the next delay of the backoff policy"
+}
+
+
+// ownName: v is the name of the target a monitor chain function works for - target.name, or a string
+// parameter that all callers in the package fill with such a value.
+func ownName(P *Prog, f *ssa.Function, v ssa.Value, d int) (bool, string) {
+	if d > 3 {
+		return false, "too deep"
+	}
+	v = unwrap(v)
+	switch x := v.(type) {
+	case *ssa.UnOp:
+		if x.Op == token.MUL {
+			if fa, ok := x.X.(*ssa.FieldAddr); ok && vname(fieldOf(fa)) == "name" && isNamed(deref(fa.X.Type()), "manager", "target") {
+				return true, "target.name"
+			}
+			// a parameter or local captured in a cell
+			if al, ok := x.X.(*ssa.Alloc); ok {
+				if sv := singleStore(al); sv != nil {
+					return ownName(P, f, sv, d+1)
+				}
+			}
+			if fv, ok := x.X.(*ssa.FreeVar); ok {
+				if b := bindingOf(fv); b != nil {
+					if al, ok := b.(*ssa.Alloc); ok {
+						if sv := singleStore(al); sv != nil {
+							return ownName(P, f.Parent(), sv, d+1)
+						}
+					}
+				}
+			}
+		}
+	case *ssa.FreeVar:
+		if b := bindingOf(x); b != nil {
+			return ownName(P, f.Parent(), b, d+1)
+		}
+	case *ssa.Phi:
+		for _, e := range x.Edges {
+			if ok, why := ownName(P, f, e, d+1); !ok {
+				return false, why
+			}
+		}
+		return len(x.Edges) > 0, "every incoming value"
+	case *ssa.Parameter:
+		g := x.Parent()
+		idx := -1
+		for i, p := range g.Params {
+			if p == x {
+				idx = i
+			}
+		}
+		if idx < 0 {
+			return false, "parameter not found"
+		}
+		if isExportedFn(g) {
+			return true, "name parameter of the exported " + fnName(g) + " (the key the caller manages the target under)"
+		}
+		n := 0
+		for _, h := range P.PkgFuncs("manager") {
+			if P.InTestFile(h) {
+				continue
+			}
+			for _, hh := range withAnon(h) {
+				for _, ci := range callsIn(hh) {
+					if staticCallee(ci.Common()) != g || idx >= len(ci.Common().Args) {
+						continue
+					}
+					n++
+					if ok, why := ownName(P, hh, ci.Common().Args[idx], d+1); !ok {
+						return false, "caller " + fnName(hh) + " passes " + why
+					}
+				}
+			}
+		}
+		if n == 0 {
+			return false, "parameter " + x.Name() + " of " + fnName(g) + " has no caller in the package"
+		}
+		return true, "parameter " + x.Name() + ", filled with the target's name by every caller"
+	}
+	return false, Expr(v)
 }
